@@ -7,7 +7,7 @@ from symv.dense import describe, embed, is_fermionic, struct_sig, vec_dense
 
 META = {
     "level": "exploration",
-    "level_text": "Each monitored svd / eigh / norm / solve call is compared with numpy.linalg on the independently densified matrix: the library's singular values, as a sorted multiset, equal the dense singular values (zero padded); eigenvalues equal eigvalsh of the dense matrix restricted to the stored diagonal blocks (abelian); the Frobenius norm equals the dense norm; the solution equals numpy.linalg.solve on the dense system (abelian, invertible). Fermionic matrices: singular values and norm only (sign-gauge invariant). Seeded random exploration with the C11 generator. Later additions: operators of non-zero total charge (solution audited, charge checked), invertible blocks of condition 1e10 judged by the residual, block-less right-hand sides, very elongated ill-conditioned blocks, structured and large blocks.",
+    "level_text": "Each monitored svd / eigh / norm / solve call is compared with numpy.linalg on the independently densified matrix: the library's singular values, as a sorted multiset, equal the dense singular values (zero padded); eigenvalues equal eigvalsh of the dense matrix restricted to the stored diagonal blocks (abelian); the Frobenius norm equals the dense norm; the solution equals numpy.linalg.solve on the dense system (abelian, invertible). Fermionic matrices: singular values and norm only (sign-gauge invariant). Seeded random exploration with the C11 generator. Later additions: operators of non-zero total charge (solution audited, charge checked), invertible blocks of condition 1e10 judged by the residual, block-less right-hand sides, very elongated ill-conditioned blocks, structured and large blocks. Round 9: integer- and bool-typed Hermitian matrices and integer operators, blocks with null rows / columns, user-defined symmetries.",
     "technique": "runtime monitoring: differential oracle (numpy.linalg on the independently densified matrix)",
     "rule": (
         "one evaluation = one library call compared with numpy.linalg on the densified operand. Non-trivial = matrix with >=2 blocks of different shapes, a rank-deficient block or a missing block; "
